@@ -135,8 +135,9 @@ def run(ctx):
         c = dict(c)
         c["id"] = len(cases) + 1
         pool = [list(p) for p in FIXED_POOL]
-        while len(pool) < 8:
-            pool.append([rng.choice([1, 2, 3, 4, 5, 6]) for _ in range(rng.randint(0, 5))])
+        # one medium random string and one of length 200 over the full glyph-id range
+        pool.append([rng.choice([1, 2, 3, 4, 5, 6]) for _ in range(rng.randint(0, 40))])
+        pool.append([rng.choice([1, 2, 3, 4, 5, 6, 1, 2, 4, 0, 7, 300, 65535]) for _ in range(200)])
         c["inputs"] = pool
         cases.append(c)
     byid = {c["id"]: c for c in cases}
